@@ -674,3 +674,56 @@ Proof. unfold name_cell_b. apply text_eqb_spec. Qed.
 Lemma day_span_spec x l :
   day_span (x :: l) = Z.to_nat (day_of (zmax_list x l) - day_of (zmin_list x l) + 1).
 Proof. unfold day_span. cbn [map]. rewrite zmin_day_of, zmax_day_of. reflexivity. Qed.
+
+(* ================= the hypotheses of the width theorems, decidably ================= *)
+
+Definition no_char_b (c : N) (t : text) : bool := forallb (fun y => negb (N.eqb y c)) t.
+
+Lemma no_char_b_sound c t : no_char_b c t = true -> ~ In c t.
+Proof.
+  unfold no_char_b. rewrite forallb_forall. intros H Hin. apply H in Hin.
+  rewrite N.eqb_refl in Hin. discriminate.
+Qed.
+
+Definition wf_color_b (c : text) : bool :=
+  no_char_b NL c &&
+  match rev c with
+  | [] => true
+  | x :: b => N.eqb x LM && no_char_b LM b
+  end.
+
+Definition wf_ocolor_b (o : option text) : bool :=
+  match o with None => true | Some c => wf_color_b c end.
+
+Lemma wf_ocolor_b_sound o : wf_ocolor_b o = true -> wf_ocolor o.
+Proof.
+  intros H c ->. simpl in H. unfold wf_color_b in H. apply andb_true_iff in H. destruct H as [Hnl H].
+  split; [apply no_char_b_sound; assumption|].
+  destruct (rev c) as [|x b] eqn:E.
+  - left. rewrite <- (rev_involutive c), E. reflexivity.
+  - right. apply andb_true_iff in H. destruct H as [Hx Hb]. apply N.eqb_eq in Hx. subst x.
+    exists (rev b). split.
+    + rewrite <- (rev_involutive c), E. reflexivity.
+    + intro Hin. apply in_rev in Hin. revert Hin. apply no_char_b_sound. assumption.
+Qed.
+
+Definition cell_ok_b (c : cell) : bool :=
+  wf_ocolor_b (c_color c) && no_char_b ESC (c_text c) && no_char_b NL (c_text c).
+Definition row_ok_b (r : row) : bool := wf_ocolor_b (r_color r) && forallb cell_ok_b (r_cells r).
+
+Lemma row_ok_b_sound r : row_ok_b r = true -> row_ok r.
+Proof.
+  unfold row_ok_b, row_ok. intros H. apply andb_true_iff in H. destruct H as [Hc Hcells].
+  split; [apply wf_ocolor_b_sound; assumption|].
+  apply Forall_forall. intros c Hin. rewrite forallb_forall in Hcells. apply Hcells in Hin.
+  unfold cell_ok_b in Hin. apply andb_true_iff in Hin. destruct Hin as [Hin Hnl].
+  apply andb_true_iff in Hin. destruct Hin as [Hcol Hesc].
+  unfold cell_ok. split; [apply wf_ocolor_b_sound; assumption|].
+  split; apply no_char_b_sound; assumption.
+Qed.
+
+Lemma rows_ok_b_sound rows : forallb row_ok_b rows = true -> Forall row_ok rows.
+Proof.
+  intros H. apply Forall_forall. intros r Hin. rewrite forallb_forall in H.
+  apply row_ok_b_sound, H, Hin.
+Qed.
